@@ -47,7 +47,7 @@ META = {
                     "git stores: names must be valid ref components without '/', revision ids must be commits of the repository "
                     "(per-store validity predicate; rejected share reported in input_distribution)"],
     "rule": ("exhaustive: all src/dst dicts over 2 (quick) or 3 (thorough) names x {absent,2 values} x selectors x overwrite on "
-             "_reconcile_tags; random unicode dicts; serialise/deserialise/store; transfers over 9 store combinations incl. bound "
+             "_reconcile_tags; random unicode dicts; serialise/deserialise/store; transfers over 10 store combinations incl. bound "
              "branches; non-trivial = source and destination share a name or the selector rejects something"),
 }
 
@@ -119,18 +119,18 @@ def _rand_sel(rng, names):
 
 
 KINDS = {
-    # kind: (source store, destination store, inter?, native destination?)
-    "mem-mem": ("mem", "mem", False, False),
-    "mem-native": ("mem", "native", False, True),
-    "mem-git": ("mem", "git", False, False),
-    "native-native": ("native", "native", True, True),
-    "native-bound": ("native", "bound", True, True),
-    "native-git": ("native", "git", True, False),
-    "git-git": ("git", "git", False, False),
-    "git-native": ("git", "native", True, True),
-    "git-bound": ("git", "bound", True, True),
-    # MemoryTags.merge_to towards a bound branch: only generated as a finding witness (see corpus)
-    "mem-bound": ("mem", "bound", False, True),
+    # kind: (source store, destination store, model merge_kind, native destination?)
+    "mem-mem": ("mem", "mem", "MMem", False),
+    "mem-native": ("mem", "native", "MMem", True),
+    "mem-git": ("mem", "git", "MMem", False),
+    "native-native": ("native", "native", "MInter", True),
+    "native-bound": ("native", "bound", "MInter", True),
+    "native-git": ("native", "git", "MInter", False),
+    "git-git": ("git", "git", "MGitGit", False),
+    "git-native": ("git", "native", "MInter", True),
+    "git-bound": ("git", "bound", "MInter", True),
+    # MemoryTags.merge_to towards a bound branch (master updated since commit b75814f)
+    "mem-bound": ("mem", "bound", "MMem", True),
 }
 
 
@@ -185,9 +185,9 @@ def corpus():
         {"fn": "store", "d": [["日本語", "rüv".encode()], ["", b""], ["1:a", b"\xff\x00"]]},
     ]
     known = {e["id"] for e in load_known_findings(PROP)}
-    if "C24-memorytags-merge-ignores-master" in known:
-        out.append({"fn": "transfer", "kind": "mem-bound", "src": [["v1", b"rev-1"]], "dst": [], "master": [],
-                    "ignore_master": False, "overwrite": False, "sel": None})
+    # regression witness of the repaired finding C24-memorytags-merge-ignores-master (commit b75814f): must PASS
+    out.append({"fn": "transfer", "kind": "mem-bound", "src": [["v1", b"rev-1"]], "dst": [], "master": [],
+                "ignore_master": False, "overwrite": False, "sel": None})
     if "C24-git-ghost-tag-reported-not-stored" in known:
         out.append({"fn": "transfer", "kind": "native-git", "src": [["ghost", b"not-in-the-git-repo"]], "dst": [],
                     "master": None, "ignore_master": False, "overwrite": False, "sel": None})
@@ -230,8 +230,6 @@ def cases(rng, tier):
     # 3. transfers
     per = 60 if quick else 700
     for kind in KINDS:
-        if kind == "mem-bound":
-            continue
         for _ in range(per):
             yield _transfer_case(rng, kind)
 
@@ -394,7 +392,7 @@ def model_term(inp):
     d_store = _d
     ds = ("DNative" if native else
           f"(DGit {coq_list([coq_bytes(g) for g in GIT_SYMS])})" if d_store == "git" else "DMem")
-    return (f"run_transfer {coq_bool(inter)} {ds} {_cd(inp['src'])} {_cd(inp['dst'])} {master} "
+    return (f"run_transfer {inter} {ds} {_cd(inp['src'])} {_cd(inp['dst'])} {master} "
             f"{coq_bool(inp['ignore_master'])} {coq_bool(inp['overwrite'])} {_csel(inp['sel'])}")
 
 
@@ -488,8 +486,6 @@ def oracle(inp, obs):
 def finding_matches(fid, inp, obs, why):
     if inp.get("fn") != "transfer":
         return False
-    if fid == "C24-memorytags-merge-ignores-master":
-        return inp["kind"] == "mem-bound" and not inp["ignore_master"] and "master branch" in (why or "")
     if fid == "C24-git-ghost-tag-reported-not-stored":
         return (KINDS[inp["kind"]][1] == "git" and KINDS[inp["kind"]][0] != "git"
                 and any(v not in GIT_SYMS for _k, v in inp["src"]))
